@@ -358,6 +358,16 @@ pub fn check(case: &Case) -> Verdict {
             }
         }
     }
+    // the amount goes with the chosen unit (value preservation on the
+    // best-fit path, where the generator places results in every unit)
+    if let Some((exact, bud)) = amount_budget(o, &e, r.1) {
+        if !amt::close(r.0, &exact, &bud, 1) {
+            fail!(
+                "{}: result {}; the exact amount in that unit is {}",
+                note, c.describe_q(o.r, r), exact.describe()
+            );
+        }
+    }
     let _ = placement;
     pass(class, true)
 }
